@@ -64,7 +64,7 @@ def run_spec(cs, name, shards=14):
     def one(a):
         idx, part = a
         d = tlc.fresh_dir(f"{name}_{idx}")
-        tlc.stage_specs(d, ["SysGrad.tla"])
+        tlc.stage_specs(d, ["SysGrad.tla", "ZooModel.tla"])
         (d / "MCSysGrad.tla").write_text("---- MODULE MCSysGrad ----\nEXTENDS SysGrad\nCasesDef == {\n "
                                          + ",\n ".join(_case_tla(c) for c in part) + "\n}\n====\n")
         return tlc.run_tlc(d, "MCSysGrad", CFG, workers=1, timeout=1700, cpus=1, heap="2g", stack="64m")
